@@ -110,6 +110,7 @@ def scope(tier, seed):
             + ' x formulas over {p}' + ('' if tier == 'quick' else '; size-2 formulas on K(<=2)')
             + '; CTL formulas with quantified operands (Q[a U/R b], Q[b U a], QX/QF/QG b; b one-operator '
             'quantified) on the K(3,{p}) representatives' + (' (a seed-indexed third of the formulas on half of the structures)' if tier == 'quick' else '')
+            + '; structures that already carry user atoms named fair / fair0 (CTL, K(<=3,{p}))'
             + '; additionally one-operator formulas over the literal leaves p, not p, q, not q ('
             + ('CTL only' if tier == 'quick' else 'all three logics') + ')'}
 
@@ -128,6 +129,8 @@ def plan(tier, seed):
         sh.append(['mc3', lo, hi])
     for lo, hi in chunks(len(_k3()), 16):
         sh.append(['mc3n', lo, hi])
+    for lo, hi in chunks(len(_k3()), 16):
+        sh.append(['userfair', lo, hi])
     if tier == 'thorough':
         for lo, hi in chunks(82, 1):
             sh.append(['mc2', lo, hi, 1])
@@ -173,7 +176,11 @@ def check_mc(k, Kl, F, logic, f, acc, as_frozen, audit=False):
     snap = lib.snapshot_kripke(Kl)
     del _REC[:]
     L = LANG[logic]
-    res = as_state_set(call(L.modelcheck, Kl, lib.build(f, L), F=Farg))
+    fobj = lib.build(f, L)
+    res = as_state_set(call(L.modelcheck, Kl, fobj, F=Farg))
+    if lib.read(fobj) != f:
+        acc.violation('formula-object-modified', kcase(k, f, F=[sorted(P) for P in F], logic=logic,
+                                                       frozen=as_frozen), spaces.fstr(f), str(fobj))
     rec = list(_REC)
     sem = Sem(k, F=F)
     ref = sem.sat(f)
@@ -282,6 +289,30 @@ def run_shard(shard, tier, seed, acc):
                         if r == 'stop':
                             Kl = lib.to_kripke(k)
             acc.sample({'k': k.to_json(), 'F': 'all lists of <=2 subsets', 'logics': ['CTL', 'LTL', 'CTLS']})
+        return
+    if kind == 'userfair':
+        # the structure already carries atoms called 'fair' / 'fair0' on some states (the user's own
+        # labels): the answer for formulas over p must not change
+        Pp = spaces.P
+        forms = formulas('CTL', (Pp,)) + [f for f in formulas('CTL', (Pp,), literals=True)][::3]
+        ks = list(spaces.kripke_reps(1, ('p',))) + list(spaces.kripke_reps(2, ('p',))) if shard[1] == 0 else []
+        ks = ks + _k3()[shard[1]:shard[2]][(seed % 2)::2]
+        for k in ks:
+            for placement in (1, (1 << k.n) - 2, (1 << k.n) - 1, 5 % (1 << k.n)):
+                for extra in (('fair',), ('fair', 'fair0')):
+                    lab = dict((i, set(k.lab[i]) | (set(extra) if (placement >> i) & 1 else set()))
+                               for i in range(k.n))
+                    Kl = Kripke(S=list(range(k.n)), R=[(i, j) for i in range(k.n) for j in k.succ[i]], L=lab)
+                    Fl = f_lists(k.n, 1)
+                    for j, f in enumerate(forms):
+                        if deadline_passed():
+                            acc.capped()
+                            return
+                        for i, F in enumerate(Fl):
+                            r = check_mc(k, Kl, F, 'CTL', f, acc, as_frozen=((i + j) % 2 == 1))
+                            if r == 'stop':
+                                Kl = Kripke(S=list(range(k.n)), R=[(a, b) for a in range(k.n) for b in k.succ[a]], L=lab)
+        acc.sample({'labels': 'p plus user atoms fair / fair0 on some states', 'formula': 'E(X(p))', 'F': '[{1}]'})
         return
     if kind == 'mc3n':
         # CTL formulas whose operands are themselves quantified (the fair rewriting must reach them):
